@@ -9,5 +9,6 @@ CONSTANTS
   MissingParentIgnored = FALSE
   ProfileBeatsFlag = FALSE
   EnvProfileBeatsFlag = FALSE
+  WindowAsUnit = FALSE
 INVARIANTS Reach_EnvSelectedDeepChain Reach_CycleError Reach_MissingError Reach_FlagOverEnvProfile
 CHECK_DEADLOCK FALSE
